@@ -386,3 +386,24 @@ REGISTRY["C07"] = {
         {"name": "TestC07Generated", "checks": {"quick": 60, "thorough": 1500}, "shards": {"quick": 4, "thorough": 16}, "gomaxprocs": [4, 2, 16, 1]},
     ],
 }
+
+REGISTRY["C17"] = {
+    "pkg": "props/c17",
+    "race": True,
+    "level": "exploration",
+    "level_text": ("Under the Go race detector: rapid-generated C01-style programs (all block kinds, sub-processes, loops, conditional flows, optional catch-event "
+                   "tail) whose task results are never read by a condition, so that all answers commute and the sequential outcome is unique. In every step ALL "
+                   "pending tasks are answered concurrently from separate goroutines (with results and data objects), or the listening catch event is woken, "
+                   "while 1..4 goroutines read the locator (CloneVariables/GetVariable/CloneItems), 0..3 subscribe and unsubscribe extra trace subscribers, "
+                   "0..3 sit in WaitUntilComplete and 0..3 deliver non-matching events; schedule perturbation at all hook sites, GOMAXPROCS 4/16. Oracle: any "
+                   "race report with a frame in a non-test file of the repository is a violation (reports wholly inside the harness fail the run as inconclusive); "
+                   "any panic / worker crash is a violation; at every quiescent point the pending set, and at the end completion and the flows taken, equal the "
+                   "sequential token game's."),
+    "level_note": "Trusted: the Go race detector (reports only races that occur on executed schedules; none through unsafe). Event-based gateways and boundary events are exercised concurrently by C06/C10 without -race.",
+    "technique": "rapid property test under the race detector: concurrent API use against a sequential-semantics oracle; crash detection via journal",
+    "rule": ("Distinct = descriptor. Non-trivial = >=3 API calls overlapped in time (measured by an active-call counter) and >=2 tasks were pending at once (live tokens)."),
+    "tests": [
+        {"name": "TestC17Concurrent", "checks": {"quick": 60, "thorough": 2500}, "shards": {"quick": 12, "thorough": 16}, "gomaxprocs": [4, 16, 8, 2],
+         "limit": {"quick": 900, "thorough": 5400}},
+    ],
+}
